@@ -142,8 +142,12 @@ func verifC08(cols, maxRows, textLen int, mode int) {
 		nText++
 		switch mode {
 		case 1:
-			if nText%2 == 1 {
+			// (white space other than U+0020 at the ends of a text is content: TAB, no-break space)
+			switch nText % 3 {
+			case 1:
 				return "ab"
+			case 2:
+				return "\tq\u00a0"
 			}
 			return "c d e"
 		case 2:
